@@ -14,15 +14,15 @@ CHECKS = {
         technique="TLC trace validation (Trace_Api: sent = Wire!EncodeLayout(Messages!Req[op], Api!Fields(op,args))) of API calls recorded at the transport boundary; TLC check of table well-formedness and codec round trip (MC_Wire)",
         text="The protocol (field codec, 65 message layouts, per-operation request construction) is an executable TLA+ definition; TLC checks its well-formedness and round trip, "
              "and then judges every recorded call of the real library (sequences on one client: all ordered pairs of operations, every 1-byte argument over all 256 values, all HH:mm values, random and boundary tuples, serial bit-walks, dense date histories across a leap-year end, client configurations with every protocol string) "
-             "by comparing all 64 bytes handed to the transport with the specification's encoding. Exhaustive per field, combinatorial/random across fields; not a proof over all argument tuples.",
+             "by comparing all 64 bytes handed to the transport with the specification's encoding; on the real driver (loopback farm) the request is compared again as it arrived at the controller's socket (WireExact) and counted (ExactlyOneRequest, also with strays ahead of the reply). Exhaustive per field, combinatorial/random across fields; not a proof over all argument tuples.",
         note="Trusted: spec/Messages.tla as the protocol (frozen transcription of the pinned commit, cross-checked against the repository's golden vectors); TLC; the harness projection of arguments (field copies). TZ=UTC.",
         design="4/C01",
     ),
     "C02": dict(
         category="model_checking",
         technique="TLC trace validation (Trace_Api: Api!ResultOK(op,args,cfg,reply,result)) of API calls answered by scripted replies generated field by field from the TLC-exported layouts",
-        text="Api!ResultOK defines, per operation, which results are acceptable for a header-correct reply: the protocol decoding of every field (sentinels first), or - for a field outside its domain - an error or the field's zero value, never another value. "
-             "TLC judges every recorded call; the harness enumerates every byte of every reply field over all 256 values, out-of-domain / zero / random variants per field, sentinel patterns, special byte patterns per field, calendar patterns in every date slot and HH:mm byte pairs; a zone pass repeats the date/time-bearing operations in child processes running in zones with offset changes (calendar fields on the change days, existing civil times only).",
+        text="Api!ResultOK defines, per operation, which results are acceptable for a header-correct reply: the protocol decoding of every field (sentinels first), or - for a field outside its domain - an error or the field's zero value, never another value (a boolean byte other than 0/1 and a non-decimal nibble in a date / time field have no acceptable value: the call can only fail). "
+             "TLC judges every recorded call; the harness enumerates every byte of every reply field over all 256 values, out-of-domain / zero / random variants per field, sentinel patterns, special byte patterns per field (also with one byte of the pattern corrupted), boundary values of every field kind, calendar patterns in every date slot and HH:mm byte pairs; a zone pass repeats the date/time-bearing operations in child processes running in zones with offset changes (calendar fields on the change days, existing civil times only).",
         note="Trusted: spec/Messages.tla + Api.tla as protocol; TLC; result projection by field copy. TZ=UTC for the main run. Documented don't-cares are listed in the evidence assumptions.",
         design="4/C02",
     ),
@@ -30,7 +30,7 @@ CHECKS = {
         category="model_checking",
         technique=TR,
         text="Invariants AcceptOnlyValid, BcastKeepsWaiting, FailOnlyOnBad, SetAddrNeverReads hold on the complete state space of three bounded configurations (2-3 calls, all datagram classes, strays, peer faults). "
-             "Behaviours of the same specification (controller answers of 1-2 datagrams from 8 classes, strays injected into the call's source port, all three paths) are replayed against the unmodified driver on loopback and every recorded scenario must be a behaviour of the specification: accepted / skipped / refused exactly as the model's Recv says; one hand-made behaviour per datagram class x {ordinary, status} call x path and per wrong length (19 lengths, 0..4096, and the genuine TCP reply split in two segments) and path.",
+             "Behaviours of the same specification (controller answers of 1-2 datagrams from 8 classes, strays injected into the call's source port, all three paths) are replayed against the unmodified driver on loopback and every recorded scenario must be a behaviour of the specification: accepted / skipped / refused exactly as the model's Recv says; one hand-made behaviour per datagram class x {ordinary, status} call x path and per wrong length (19 lengths, 0..4096, and the genuine TCP reply split in two segments) and path; floods of up to 140 ignored datagrams ahead of the genuine reply; peer faults incl. a TCP peer that ends the stream without a byte (closed); on the real driver every reply-bearing operation over each path with the result kept across 1-4 further exchanges, and a reply with one out-of-domain field right after a well-formed one, judged against its own datagram (OnlyOwnDatagram).",
         note="Trusted: TLC; the farm's concretisation of datagram classes; timing on a 50 ms tick with a re-run rule (a rejection counts only if reproduced in isolation at 150 ms tick). Operation coverage on real sockets is representative (GetCardByIndex, GetStatus incl. 0x19, SetAddress); per-operation decoding is C02's.",
         design="4/C03",
     ),
@@ -38,14 +38,14 @@ CHECKS = {
         category="model_checking",
         technique="TLC trace validation (Trace_Codec / Trace_Api conjuncts NoPanic, RenderOK) of recovered-panic outcome records from systematic byte-string and argument enumeration through every decode entry point, operation and the event handler",
         text="Totality: the specification gives every decode entry point and operation a non-panic outcome for every input, so a recorded panic (recovered by the harness) or a panicking String()/JSON rendering of a returned value is a trace the specification rejects. "
-             "Inputs: every length 0..80 (+ selected to 2048) x 6 content classes, every single byte of a valid message over all 256 values and special patterns per field, for all 65 message types; arbitrary datagrams returned to every operation and the listener; C02's field-by-field reply generator through every operation with String() called directly and JSON; byte strings of every length through the REAL driver on loopback (udp, tcp, broadcast, discovery, listener; debug off/on); extreme argument tuples. A harness process killed by a panic whose first non-runtime frame is library code is reported as a violation.",
+             "Inputs: every length 0..80 (+ selected to 2048) x 6 content classes, every single byte of a valid message over all 256 values and special patterns per field, for all 65 message types through Unmarshal / UnmarshalAs / UnmarshalArray / UnmarshalArrayElement and the dispatchers; arbitrary datagrams returned to every operation and the listener; C02's field-by-field reply generator through every operation with String() called directly and JSON; byte strings of every length through the REAL driver on loopback (udp, tcp, broadcast, discovery, listener; debug off/on) and windows full of datagrams (60 x 2048, 1200 x 64, 300 x 1 bytes); OnError answers true / false alternately; extreme argument tuples. A harness process killed by a panic whose first non-runtime frame is library code is reported as a violation.",
         note="Trusted: recover() as panic observer; TLC. The specification contributes the outcome classes and (where inputs are in C02/C05's domain) the values; it cannot itself observe a Go panic.",
         design="4/C04",
     ),
     "C05": dict(
         category="model_checking",
         technique="TLC trace validation (Trace_Codec: EncodedOK / decoded = value / slack independence / dispatch table) of codec calls on all 65 message types in child processes per time zone; slack positions exported from the specification",
-        text="For generated in-domain values of every registered message type the specification checks the encoding byte for byte, that decoding (Unmarshal, UnmarshalAs) returns the value, and that it still does after bytes outside every field (positions computed by TLC) are changed (a quarter of the calendar values on the process zone's offset-change days); "
+        text="For generated in-domain values of every registered message type the specification checks the encoding byte for byte, that decoding (Unmarshal, UnmarshalAs) returns the value, that it still does after bytes outside every field (positions computed by TLC) are changed, when decoded into a struct that already holds another message of the type (ReuseIndependent) and after the input buffer is overwritten (NoAlias); boundary values of every field kind (a quarter of the calendar values on the process zone's offset-change days); "
              "the dispatchers are checked against Messages!TypeOfCode over all function codes, lengths and protocol ids. One child process per zone: 12 zones quick, every IANA zone thorough.",
         note="Trusted: spec tables; TLC; reflection-based value generation/projection in the harness; existence of a civil time in a zone is taken from Go's time package.",
         design="4/C05",
@@ -54,15 +54,15 @@ CHECKS = {
         category="model_checking",
         technique="TLC trace validation (Trace_Api: route = Api!Route(op,cfg,serial), one transport call) over 32 operations x 270 client configurations on the scripted transport; TLC trace validation (Trace_Transport TAsk: arrival transport/endpoint, source = bind address, exactly once, silent decoys) of real-socket scenarios",
         text="Api!Route is the routing rule of the property (usable address => direct, tcp only when configured tcp, otherwise broadcast to the configured or default broadcast address; discovery always broadcasts). Every recorded call under every configuration of the product must invoke the transport once with exactly that method and endpoint; "
-             "on real sockets the farm records where each request arrived, from which source address/port, how often, and that decoy endpoints heard nothing.",
+             "on real sockets the farm records where each request arrived, from which source address/port, how often, and that decoy endpoints heard nothing; strangers write to the port of connected-UDP calls too (the kernel never shows them to the call: StrangersCannotTouchDirected, XF_UnconnectedUDP refuted); one client configured with all controllers in every other scenario; the source address of discovery / broadcast-to / UDP / TCP requests from bind addresses 127.0.0.2:0 and 127.0.0.3:fixed as seen by the farm (SourceIsBindAddress).",
         note="Trusted: TLC; the default broadcast address 255.255.255.255:60000 is only observable at the driver boundary (sealed network).",
         design="4/C06",
     ),
     "C07": dict(
         category="model_checking",
         technique="TLC trace validation (Trace_Api: nothing sent <=> Api!Reject(op,args)) of API calls recorded on the scripted transport, incl. the complete 2^32 card-number space as accept intervals (thorough)",
-        text="Api!Reject is the complete list of refusal reasons of the property; each recorded call must have put nothing on the transport and returned an error exactly when Reject holds, and exactly one request otherwise; SetDoorPasscodes requests must carry exactly the valid passcodes (PasscodesSentOrDisabled). "
-             "Boundary-exhaustive argument sets per rule (card numbers around every facility-code boundary x format lists, PINs, AddrPort variants, net.IP shapes, doors 0..255, HH:mm pairs); thorough tier decides the Wiegand-26 accept set over all 2^32 numbers.",
+        text="Api!Reject is the complete list of refusal reasons of the property; each recorded call must have put nothing on the transport and returned an error exactly when Reject holds, and exactly one request otherwise; SetDoorPasscodes requests must carry exactly the valid passcodes (PasscodesSentOrDisabled), also when the lists are consecutive windows of one table; calls that pass every documented check with a date / time of day the wire format cannot carry must still be sent (RejectedOnlyForTheseReasons). "
+             "Boundary-exhaustive argument sets per rule (card numbers around every facility-code boundary and 0xNNffffff x format lists, PINs, segment maps with entries under non-segment keys, controllers configured with 1 / 2 / 5 / 8 / no door names, AddrPort variants, net.IP shapes, doors 0..255, HH:mm pairs); thorough tier decides the Wiegand-26 accept set over all 2^32 numbers.",
         note="Trusted: TLC; the scripted transport as observation point for 'nothing on the network'; argument projection by field copy.",
         design="4/C07",
     ),
@@ -70,7 +70,7 @@ CHECKS = {
         category="model_checking",
         technique=TR + "; happens-before model of Broadcast() (spec/Discovery.tla, vector clocks) with NoRace invariant; Go race detector as observer of memory races on the same scripts + discovery + listener shutdown",
         text="NoCrossedReplyStrict, PortExclusive, TimelyAnswerAccepted hold over all interleavings of 3 calls to one controller on a shared fixed port (delays < T); XF_NoGuard, XF_GuardPerClient (the lock owned by a client instead of the process), XF_DeadlineBeforeLock and XF_DiscoveryUnsync each yield the modelled defect's counterexample. "
-             "Simulated behaviours with 3-4 concurrent calls (same controller, mixed paths, fixed and ephemeral port) are replayed on real sockets with request tags echoed in replies so that a crossed reply or a refused timely answer is a rejected trace (incl. calls that queue for the fixed port and then use TCP); a gate around the real driver (verif hook) forces the schedule Transport!Finish(a) .. [call b completes 1-4 times] .. Transport!Return(a) over all nine path pairs, same / other client, and each result must interpret its own reply (Trace_Api!CheckGate); the same scripts run under -race, preceded by a cold-start burst (one goroutine per operation released at once on a fresh process).",
+             "Simulated behaviours with 3-4 concurrent calls (same controller, mixed paths, fixed and ephemeral port) are replayed on real sockets with request tags echoed in replies so that a crossed reply or a refused timely answer is a rejected trace (incl. calls that queue for the fixed port and then use TCP, and two connected-UDP calls to one controller); a gate around the real driver (verif hook) forces the schedule Transport!Finish(a) .. [call b completes 1-4 times] .. Transport!Return(a) over all nine path pairs, same / other client, and each result must interpret its own reply (Trace_Api!CheckGate); the same scripts run under -race, preceded by a cold-start burst (one goroutine per operation released at once on a fresh process), bursts of events into the listener, and calls whose slice arguments are windows of one table; a race is attributed to the first frame of each access that is not runtime / standard library.",
         note="Whether a memory race happened is observed by the Go race detector, not by the specification (which contributes the synchronisation design and arbitrates the trace). Timing as C03.",
         design="4/C08",
     ),
@@ -78,14 +78,14 @@ CHECKS = {
         category="model_checking",
         technique=TR + "; liveness (Termination) under weak fairness; process-level fd / goroutine counts as logged state",
         text="BoundedReturn, NoEarlyGiveUp, DeadlineFromAsk, Released are invariants of the model; Termination holds under weak fairness; XF_RearmPerRead / XF_NoCloseOnError / XF_DeadlineBeforeLock are refuted. "
-             "Replayed behaviours cover silence, late replies, refused and reset TCP, ICMP-refused UDP, accept-and-stall, a TCP peer that never answers the SYN (blackhole), a TCP handshake that completes only on the kernel's SYN retransmission and then stalls (model: Send = dial, Connect; one absolute deadline; XF_RearmAfterConnect refuted), and floods of irrelevant datagrams until the deadline (alone and with the genuine reply at T-1); time-outs must fall in tick T after being asked, timely replies must be accepted, and each child process must hold no more sockets or goroutines afterwards; discovery (Discovery.tla: WindowAbsolute, ReaderQuits under fairness, XF_DiscoveryRearm / XF_DiscoveryHandOff refuted) is exercised under a datagram-per-millisecond flood through the deadline with goroutine / socket accounting (Trace_Api!CheckQuiesce).",
+             "Replayed behaviours cover silence, late replies, refused and reset TCP, ICMP-refused UDP, accept-and-stall, a TCP peer that never answers the SYN (blackhole), a TCP handshake that completes only on the kernel's SYN retransmission and then stalls (model: Send = dial, Connect; one absolute deadline; XF_RearmAfterConnect refuted), and floods of irrelevant datagrams until the deadline (alone and with the genuine reply at T-1); time-outs must fall in tick T after being asked, timely replies must be accepted, and each child process must hold no more sockets or goroutines afterwards; discovery (Discovery.tla: WindowAbsolute, ReaderQuits under fairness, XF_DiscoveryRearm / XF_DiscoveryHandOff refuted) is exercised under a datagram-per-millisecond flood through the deadline with goroutine / socket accounting (Trace_Api!CheckQuiesce); further passes: Listen on a busy port and on port 0 (descriptors counted before any collection), overlapped discoveries on an ephemeral port, discovery after a failed bind, clients with timeout 0 / negative, a 1.3 s discovery window (reply at 0.88 T listed, silence is an empty list).",
         note="Trusted: /proc/self/fd and runtime.NumGoroutine; tick timing with half a tick of slack on time-outs; re-run rule.",
         design="4/C09",
     ),
     "C10": dict(
         category="model_checking",
         technique="TLC model check of spec/Listener.tla (invariants + liveness under weak fairness, XF_SpawnPerEvent, XF_DropWhenBusy, XF_DoneOnClose refuted; NoSendOnClosedPipe); TLC trace validation (Trace_Listener, inferred internal steps, per-sender FIFO network) of real Listen() scenarios on loopback; TLC trace validation (Trace_Api EventDecoded / Stable) of every delivered status",
-        text="EventsInOrderOnce, ErrorsInOrderOnce, ConnectedOnce, Complete, Rebindable and Terminates hold for 2 senders x 4 datagrams x quit at any point. Real listener runs (1-3 senders, 8 datagram classes, start/stop cycles with an immediate re-bind) must be behaviours of that specification; "
+        text="EventsInOrderOnce, ErrorsInOrderOnce, ConnectedOnce, Complete, Rebindable and Terminates hold for 2 senders x 4 datagrams x quit at any point. Real listener runs (1-3 senders, 8 datagram classes incl. every wrong length in turn and events that repeat the previous controller and index, slow application with abrupt shutdown, OnError answering true / false, start/stop cycles with an immediate re-bind) must be behaviours of that specification - a listener that stops calling back while nobody told it to stop is not (stalled); "
              "each delivered status must equal the specification's decoding of its datagram at delivery and again after the run, also when the handler is fed from one reused, overwritten buffer; a zone pass feeds events whose calendar fields sit on the offset-change days of DST zones (child process in that zone).",
         note="Trusted: TLC; flow control in the harness so that the kernel cannot drop; errors carry no identity (matched to 'some bad datagram'). Scripts are seeded by the harness.",
         design="4/C10",
@@ -94,7 +94,7 @@ CHECKS = {
         category="model_checking",
         technique="TLC model check of spec/Discovery.tla (ResultSound, ResultComplete, WindowAbsolute, NoRace, ReaderQuits; XF_DiscoveryUnsync, XF_DiscoveryRearm refuted); TLC trace validation (Trace_Api: Api!DiscoveryOK, a recursive matcher of results against the delivered datagram sequence) on the scripted transport and against the real Broadcast()",
         text="Two-sided formulation: complete for datagrams inside the window, sound for everything returned, order preserved, duplicates kept, malformed datagrams contribute nothing and never fail the call; address completed with the broadcast port, name from the configured controller. "
-             "Every sequence of <=3/<=4 datagrams over 7 classes through GetDevices on the scripted transport, plus random multisets through the real Broadcast() on loopback with a further valid reply 0.35 T after the timeout (while the call may still be running) that must not be listed.",
+             "Every sequence of <=3/<=4 datagrams over 7 classes through GetDevices on the scripted transport, plus random multisets through the real Broadcast() on loopback with a further valid reply 0.35 T after the timeout (while the call may still be running) that must not be listed; every wrong length between two replies, crowded windows (90 non-replies ahead of three replies, 120 controllers, 90 KiB), serial numbers 0 / 0xffffffff, overlapped discoveries on a shared fixed port.",
         note="Trusted: TLC; in Rig L the sent list is taken as the delivered list (sequential sends on loopback).",
         design="4/C11",
     ),
@@ -103,49 +103,49 @@ CHECKS = {
         technique="TLC model check of the BCD laws (MC_Bcd) + TLC trace validation (Trace_C12) of recorded bcd.Encode/Decode calls; TLAPS proofs of the per-byte nibble lemmas (spec/proofs/BcdProofs.tla, 33 obligations)",
         text="The four BCD laws are model-checked on the specification operators over all strings <=4/5 over a 12-symbol alphabet and all byte strings <=2/3; "
              "every recorded call of the real bcd.Encode/Decode on those same inputs (thorough: all 2^24 three-byte inputs, summarised) is then checked by TLC to equal the specification operator's value, "
-             "including both round trips. Exhaustive within the stated bounds, position independence sampled with random long inputs.",
+             "including both round trips. Exhaustive within the stated bounds, position independence sampled with random long inputs; multi-byte digit runes; the functions called from eight goroutines at once; the earliest inputs once more thousands of values later; results appended to by the caller; the nil slice.",
         note="Trusted: TLC's evaluation of spec/Bcd.tla; the harness logs inputs/outputs as byte arrays without interpretation; the dec3 summary (accept set + digit echo flag) is computed by the harness.",
         design="4/C12",
     ),
     "C13": dict(
         category="model_checking",
         technique=PURE + " (CivilValue / CivilWire) in one child process per time zone; midnight-gap days found per zone from the tz database by the harness",
-        text="The specification owns the calendar and the wire form: every date / date-time that exists in the process zone must be reported as its civil value and encode to its own digits. All days whose local midnight is skipped 1900-2100 (found per zone), their neighbours, skipped days (exempt), the days of ordinary offset changes, boundaries and random days through ToDate, ParseDate, wire and JSON decode, String, SystemDate, date-time decode (five clock readings per day) and the date+time recombination of GetStatus and of the event listener; 25 zones quick, every zone thorough.",
+        text="The specification owns the calendar and the wire form: every date / date-time that exists in the process zone must be reported as its civil value and encode to its own digits. All days whose local midnight is skipped 1900-2100 (found per zone), their neighbours, skipped days (exempt), the days of ordinary offset changes, boundaries and random days through ToDate, ParseDate, wire and JSON decode, String, SystemDate, date-time decode (five clock readings per day) the date+time recombination of GetStatus and of the event listener, date-times held in a foreign (fixed-offset) Location, a dense window across a year end in one process; 25 zones quick, every zone thorough.",
         note="Trusted: existence of a civil time in a zone is computed by Go's time package / system tz database (TLA+ has no tz database); TLC.",
         design="4/C13",
     ),
     "C14": dict(
         category="model_checking",
         technique=PURE + " (JsonRoundTrip, JsonRoundTripAsMember, TextValue, TextReject; spec/Text.tla character-level grammars, spec/Addr.tla for address JSON)",
-        text="For each public type with a JSON form, generated in-domain values are encoded, decoded into a fresh zero value (nil maps) and as a struct member, and compared semantically by the specification; per type a character-level grammar says which texts denote which value and which must be rejected. Dates, date-times (random instants 1850-2100 and instants around the zone's own offset changes - the hour that occurs twice), cards and the text form of dates in a child process per zone, a third of the dates on the zone's offset-change days.",
+        text="For each public type with a JSON form, generated in-domain values are encoded, decoded into a fresh zero value (nil maps) and as a struct member, and compared semantically by the specification; per type a character-level grammar says which texts denote which value and which must be rejected (date texts also as members of a card document; address texts incl. overflow / non-decimal ports and quad-less texts through JSON). Dates, date-times (random instants 1850-2100 and instants around the zone's own offset changes - the hour that occurs twice), cards and the text form of dates in a child process per zone, a third of the dates on the zone's offset-change days.",
         note="Trusted: TLC; semantic projections in the harness (door / weekday / segment look-ups); documented don't-cares.",
         design="4/C14",
     ),
     "C15": dict(
         category="model_checking",
         technique=PURE + " (AcceptExact, Reject, FormatRoundTrip, RejectNoQuad; spec/Addr.tla) + TLC check of the grammar's consistency (MC_Addr)",
-        text="Addr!MustAccept / MustReject / don't-care partition texts per role; every string over {1,0,2,5,.,:} up to length 7/9, all ports (and decimal numbers beyond 65535: MustReject), single-character mutations of valid addresses and format/parse round trips (boundary addresses such as 0.0.0.0 and 255.255.255.255 x boundary ports first, then random) are judged by TLC for all four roles.",
+        text="Addr!MustAccept / MustReject / don't-care partition texts per role; every string over {1,0,2,5,.,:} up to length 7/9, all ports (and decimal numbers beyond 65535: MustReject), single-character mutations of valid addresses and format/parse round trips (boundary addresses such as 0.0.0.0 and 255.255.255.255 x boundary ports first, then random) are judged by TLC for all four roles through Parse, Set and the XAddrFrom constructors; a port text with a non-digit is refused (NonDecimalPort), an accepted zero-padded port is its decimal value (AcceptedMeansDecimal), the same text parsed twice gets the same answer.",
         note="Trusted: TLC; texts as code points.",
         design="4/C15",
     ),
     "C16": dict(
         category="model_checking",
         technique=PURE + " (rows of Before/After/Equals verdicts recomputed from the lexicographic operators) + TLC check of trichotomy / transitivity / irreflexivity and agreement with the day number on a bounded grid (MC_Order); TLAPS proofs of the order laws and the segment rule over unbounded integers (spec/proofs/OrderProofs.tla, 8 obligations)",
-        text="All 1441^2 HH:mm pairs (thorough; every 5th row quick), every day of four years incl. leap and century years against its calendar neighbours, the year ends of a 400-year cycle (thorough: all years), month ends, boundaries, random grids, date-time vs instant around second boundaries and around the offset changes of the operands' own locations; the segment rule (Trace_Api!CheckSegmentRule) over all ordered pairs of a boundary-rich HH:mm set through SetTimeProfile.",
+        text="All 1441^2 HH:mm pairs (thorough; every 5th row quick), every day of four years incl. leap and century years against its calendar neighbours, the year ends of a 400-year cycle (thorough: all years), month ends, boundaries incl. the first day of the range (also as the zero value), random grids, date-time vs instant around second boundaries and around the offset changes of the operands' own locations; the segment rule (Trace_Api!CheckSegmentRule) over all ordered pairs of a boundary-rich HH:mm set through SetTimeProfile.",
         note="Trusted: TLC; whole-second timestamps logged as two 20-bit halves.",
         design="4/C16",
     ),
     "C17": dict(
         category="model_checking",
         technique="TLC model check of spec/Insulation.tla (RoutesBySnapshot, HeldStable; three XF design switches refuted); stateful TLC trace validation (Trace_Insulation: snapshot taken at `construct`, every later call must route by Api!Route(snapshot), every re-check must show the held rendering)",
-        text="Every history of <=3/<=4 actions over {mutate caller data, mutate the DeviceList map, call, scribble transport buffers, mutate a result, re-check, clone} (+ random histories of length 20) replayed on the scripted transport, which hands out slices of one reusable buffer; argument values are re-projected after each call.",
-        note="Trusted: TLC; projections of held values; argument immutability re-projection only for PutCard and ActivateKeypads arguments.",
+        text="Every history of <=3/<=4 actions over {mutate caller data, mutate the DeviceList map, call, scribble transport buffers, mutate a result, re-check, clone} (+ random histories of length 20) replayed on the scripted transport, which hands out slices of one reusable buffer; argument values (cards, profiles, tasks' weekday maps, keypad maps, passcode windows with their tail) and the caller's device list (entries with id 0, spare capacity) are re-projected after each call / after construction; on the real driver every reply-bearing operation and discovery over each path with the result kept across 1-4 further exchanges (KeptResultUnaffected).",
+        note="Trusted: TLC; projections of held values; argument immutability by re-projection of the values the caller still holds.",
         design="4/C17",
     ),
     "C18": dict(
         category="model_checking",
         technique="TLC trace validation (Trace_Layout: Wire!EncodedOK / round trip / NoAlias / TagsEnforced applied to the layout carried by each event) of struct types generated from the tag grammar with reflect.StructOf",
-        text="The same executable field codec that judges the shipped messages judges generated layouts: every single-field layout (19 Go field types x every fitting offset x top-level/embedded), fixed-value byte tags in four notations at every offset, and 1000/20000 random multi-field layouts packed to the last byte, the embedded struct first / in the middle / last among the top-level fields; plus aliasing (input buffer overwritten after decode) and enforcement of function-code / fixed-value tags.",
+        text="The same executable field codec that judges the shipped messages judges generated layouts: every single-field layout (19 Go field types x every fitting offset x top-level/embedded), fixed-value byte tags in four notations at every offset, and 1000/20000 random multi-field layouts packed to the last byte, the embedded struct first / in the middle / last among the top-level fields; inner fields that share a Go name with an outer field or with a field of a second embedded struct; plus aliasing (input buffer overwritten after decode), the zero value of every layout, Marshal by pointer, decoding into a struct that already holds other values, and enforcement of function-code / fixed-value tags.",
         note="Trusted: TLC; layouts are harness-generated (seeded), not exported from TLC.",
         design="4/C18",
     ),
